@@ -528,6 +528,32 @@ func families(tier string) []fw.Family {
 		return it, ts
 	}
 	traces := map[*item]*oracle.Trace{}
+	// second family: cuts at exactly the arc lengths canvas itself reports for the prefixes of the
+	// path that end at a vertex (the values a caller gets from prefix.Length()), alone and
+	// together with an earlier or a later cut
+	type vcase struct {
+		it  *item
+		k   int // number of leading segments in the prefix
+		set int
+	}
+	var vcases []vcase
+	for _, it := range items {
+		for k := 1; k < len(it.segS1); k++ {
+			for set := 0; set < 3; set++ {
+				vcases = append(vcases, vcase{it, k, set})
+			}
+		}
+	}
+	vcuts := func(c vcase) []float64 {
+		s := cv.Path(oracle.PathData(prefixOf(c.it.sps, c.k))).Length()
+		switch c.set {
+		case 1:
+			return []float64{s, s + (c.it.L-s)/2}
+		case 2:
+			return []float64{s / 2, s}
+		}
+		return []float64{s}
+	}
 	name := "path-menu x split sets of size <= 2"
 	if tier == "thorough" {
 		name = "path-menu x split sets of size <= 3"
@@ -558,7 +584,53 @@ func families(tier string) []fw.Family {
 			it, ts := locate(i)
 			return fmt.Sprintf("%s [%s] L=%.9g SplitAt(%v)", curvefam.Desc(it.sps), it.name, it.L, ts)
 		},
+	}, {
+		Name: "path-menu x cuts at the lengths canvas reports for the prefixes ending at a vertex", N: int64(len(vcases)),
+		Check: func(i int64, r *fw.R) {
+			c := vcases[i]
+			if !oracle.ArcsWellConditioned(c.it.sps) {
+				r.Outcome("skipped:arc-centre-ill-conditioned")
+				return
+			}
+			tr := traces[c.it]
+			if tr == nil {
+				tr = oracle.NewTrace(c.it.sps, 2048)
+				traces[c.it] = tr
+			}
+			checkSplit(r, c.it, tr, vcuts(c))
+			r.NontrivialIdx()
+		},
+		Desc: func(i int64) string {
+			c := vcases[i]
+			return fmt.Sprintf("%s [%s] L=%.9g SplitAt(%v) (Length() of the first %d segments)", curvefam.Desc(c.it.sps), c.it.name, c.it.L, vcuts(c), c.k)
+		},
 	}}
+}
+
+// prefixOf returns the first k segments of the path (path order, subpath structure kept; a
+// partly included closed subpath becomes open, an included closing segment becomes a line).
+func prefixOf(sps []oracle.Subpath, k int) []oracle.Subpath {
+	var out []oracle.Subpath
+	for _, sp := range sps {
+		if k <= 0 {
+			break
+		}
+		if len(sp.Segs) <= k {
+			out = append(out, sp)
+			k -= len(sp.Segs)
+			continue
+		}
+		var segs []oracle.Seg
+		for _, sg := range sp.Segs[:k] {
+			if sg.Kind == oracle.CmdClose {
+				sg = oracle.MkLine(sg.P0, sg.P1)
+			}
+			segs = append(segs, sg)
+		}
+		out = append(out, oracle.Chain(false, segs...))
+		k = 0
+	}
+	return out
 }
 
 // Prop is the C09 check.
@@ -566,7 +638,7 @@ func Prop() *fw.Property {
 	return &fw.Property{
 		ID:    "C09",
 		Level: "exploration",
-		Rule: "path menu: 12 single curves of every segment type, all 144 ordered two-segment chains (thorough: also closed, and all 144 two-subpath pairs), closed shapes, paths of 2-3 subpaths; x every subset of size <= 2 (thorough <= 3) of the split candidates {0, L/4, L/2, 3L/4, L, every vertex arc length, vertex +- 1e-3}; " +
+		Rule: "path menu: 12 single curves of every segment type, all 144 ordered two-segment chains (thorough: also closed, and all 144 two-subpath pairs), closed shapes, paths of 2-3 subpaths; x every subset of size <= 2 (thorough <= 3) of the split candidates {0, L/4, L/2, 3L/4, L, every vertex arc length, vertex +- 1e-3}, and cuts at exactly the values Length() returns for the prefixes that end at a vertex (alone, with an earlier and with a later cut); " +
 			"Length within 1 % of the dense-summation length; SplitAt: pieces are consecutive stretches of the path (Hausdorff 1e-4*scale), true lengths add up (1e-6), every requested cut has a piece boundary within tolerance and every boundary was requested, reported lengths sum to Length() (1 %); " +
 			"Reverse: involution, segment-wise same points backwards (1e-9*scale), same closedness/length/box, winding negated at all grid probes farther than 1.1e-3*scale from the path; non-trivial = a non-empty split set",
 		Assumptions: []string{
